@@ -37,6 +37,7 @@ Proof.
   - apply mono_guard; assumption.
   - apply mono_with_state; assumption.
   - apply mono_with_projection_tc; assumption.
+  - apply mono_projection; assumption.
   - apply mono_is_end.
   - apply mono_comma_sep0; assumption.
   - apply mono_actions_list; assumption.
@@ -80,6 +81,12 @@ Proof.
   intro Hf. induction n; cbn [comma_sep]. fr. apply frame_bind; auto. intro x.
   apply frame_bind. apply frame_is_end. intros []; fr.
 Qed.
+Lemma frame_projection A n (f : M A) : Frame f -> Frame (projection n f).
+Proof.
+  intros Hf d s. unfold projection.
+  apply (frame_with_projection_tc _ (comma_sep n (with_tc_to (tc s) f))).
+  apply frame_comma_sep. apply frame_with_tc_to. exact Hf.
+Qed.
 Lemma frame_comma_sep0 A n (f : M A) t : Frame f -> Frame (comma_sep0 n f t).
 Proof.
   intro Hf. unfold comma_sep0, peek_two_are, peek_token. apply frame_bind. fr. intro t0.
@@ -118,6 +125,7 @@ Proof.
   - apply frame_guard; assumption.
   - apply frame_with_state; assumption.
   - apply frame_with_projection_tc; assumption.
+  - apply frame_projection; assumption.
   - apply frame_is_end.
   - apply frame_comma_sep0; assumption.
   - apply frame_actions_list; assumption.
